@@ -180,6 +180,10 @@ pub enum VCtor {
     CollectIn { n: usize, tag0: u32 },
     MacroRepeat { n: usize, tag: u32 },
     MacroList { n: usize, tag0: u32 },
+    /// iterator of Option<T> / Result<T, E> collected into Option<Vec> / Result<Vec, E>; the
+    /// `stop_at`-th item (if any) is None / Err
+    CollectInOption { n: usize, tag0: u32, stop_at: Option<usize> },
+    CollectInResult { n: usize, tag0: u32, stop_at: Option<usize> },
 }
 
 #[derive(Clone, Debug, PartialEq, Serialize, Deserialize)]
@@ -268,6 +272,9 @@ pub enum BVal {
     SliceTr { n: usize, tag0: u32 },
     AnyTr(u32),
     AnyU32(u32),
+    /// `Box::<[T]>::default()` / `Box::<str>::default()`
+    DefaultSlice,
+    DefaultStr,
 }
 
 #[derive(Clone, Debug, PartialEq, Serialize, Deserialize)]
